@@ -9,6 +9,7 @@ set_option linter.unusedVariables false
 
 theorem smallBufferSize_eq : smallBufferSize = 64 := by decide
 theorem maxInt_eq : maxInt = 9223372036854775807 := by decide
+theorem maxAlloc_eq : maxAlloc = 281474976710656 := by decide
 theorem slideDiv_eq : slideDiv = 2 := by decide
 theorem growMul_eq : growMul = 2 := by decide
 
@@ -54,7 +55,7 @@ theorem ok_intro {x : Buffer.GrowRes} {b' : Buffer} {i j : Nat} (h1 : x = .ok b'
     (`k = 0`, reslice) or exactly the consumed prefix is dropped (`k = off`: reset-if-empty, slide, reallocate);
     `n` filler bytes follow; the write index is the end of the data; capacity suffices. -/
 theorem grow_char (b : Buffer) (n : Nat) (hinv : BufferInv b)
-    (hbound : ((2 * (b.buf.length + n) + n : Nat) : Int) ≤ maxInt) :
+    (hbound : ((2 * (b.buf.length + n) + n : Nat) : Int) ≤ maxAlloc) :
     ∃ b' k, b.grow n = .ok b' (b.buf.length - k) ∧ (k = 0 ∨ k = b.off) ∧ b'.off = b.off - k ∧
       b'.buf = b.buf.drop k ++ List.replicate n 0 ∧ BufferInv b' ∧
       (b'.cap = b.cap ∨ b'.cap ≤ 64 ∨ b'.cap ≤ 2 * (b.buf.length + n) + n) := by
@@ -90,8 +91,10 @@ theorem grow_char (b : Buffer) (n : Nat) (hinv : BufferInv b)
           rw [slideDiv_eq]; omega
         simp only [hc, if_false]
         have ht : ¬ ((b.cap : Int) > maxInt - (b.cap : Int) - (n : Int)) := by
-          rw [maxInt_eq] at *; omega
-        simp only [ht, if_false, growMul_eq]
+          simp only [maxInt_eq, maxAlloc_eq] at *; omega
+        have ht2 : ¬ (((2 * b.cap + n : Nat) : Int) > maxAlloc) := by
+          simp only [maxAlloc_eq] at *; omega
+        simp only [growMul_eq, ht, ht2, if_false]
         have hfresh := copyAt_fresh (2 * b.cap + n) n ([] : List Byte) (by simp)
         simp only [List.length_nil, Nat.zero_add, List.nil_append] at hfresh
         refine ⟨_, b.off, ok_intro rfl (by omega), Or.inr rfl, ?_, ?_, ⟨?_, ?_, ?_⟩, Or.inr (Or.inr ?_)⟩
@@ -143,8 +146,10 @@ theorem grow_char (b : Buffer) (n : Nat) (hinv : BufferInv b)
           · simpa using hnil
         · simp only [hc, if_false]
           have ht : ¬ ((b.cap : Int) > maxInt - (b.cap : Int) - (n : Int)) := by
-            rw [maxInt_eq] at *; omega
-          simp only [ht, if_false, growMul_eq]
+            simp only [maxInt_eq, maxAlloc_eq] at *; omega
+          have ht2 : ¬ (((2 * b.cap + n : Nat) : Int) > maxAlloc) := by
+            simp only [maxAlloc_eq] at *; omega
+          simp only [growMul_eq, ht, ht2, if_false]
           have hfresh := copyAt_fresh (2 * b.cap + n) n (b.buf.drop b.off) (by rw [hsrc]; omega)
           rw [hsrc] at hfresh
           refine ⟨_, b.off, rfl, Or.inr rfl, ?_, ?_, ⟨?_, ?_, ?_⟩, Or.inr (Or.inr ?_)⟩
@@ -160,7 +165,7 @@ theorem grow_char (b : Buffer) (n : Nat) (hinv : BufferInv b)
 /-- `Write(p)`: returns `(len p, nil)`; the retained data loses either nothing or exactly the consumed prefix
     and gains `p` at the end. -/
 theorem write_char (b : Buffer) (p : List Byte) (hinv : BufferInv b)
-    (hbound : ((2 * (b.buf.length + p.length) + p.length : Nat) : Int) ≤ maxInt) :
+    (hbound : ((2 * (b.buf.length + p.length) + p.length : Nat) : Int) ≤ maxAlloc) :
     ∃ b' k, b.write p = (b', .wrote p.length) ∧ (k = 0 ∨ k = b.off) ∧ b'.off = b.off - k ∧
       b'.buf = b.buf.drop k ++ p ∧ BufferInv b' ∧
       (b'.cap = b.cap ∨ b'.cap ≤ 64 ∨ b'.cap ≤ 2 * (b.buf.length + p.length) + p.length) := by
@@ -197,7 +202,7 @@ theorem write_char (b : Buffer) (p : List Byte) (hinv : BufferInv b)
 
 /-- `Grow(n)`, `n ≥ 0`: contents as after `grow`, without the filler. -/
 theorem growOp_char (b : Buffer) (n : Int) (hn : 0 ≤ n) (hinv : BufferInv b)
-    (hbound : ((2 * (b.buf.length + n.toNat) + n.toNat : Nat) : Int) ≤ maxInt) :
+    (hbound : ((2 * (b.buf.length + n.toNat) + n.toNat : Nat) : Int) ≤ maxAlloc) :
     ∃ b' k, b.growOp n = (b', .unit) ∧ (k = 0 ∨ k = b.off) ∧ b'.off = b.off - k ∧
       b'.buf = b.buf.drop k ∧ BufferInv b' ∧ n.toNat ≤ b'.cap - b'.buf.length := by
   unfold Buffer.growOp
@@ -250,10 +255,10 @@ def BufferSim (b : Buffer) (g : Ghost) (S : Nat) : Prop :=
   BufferRel b g ∧ BufferInv b ∧ b.buf.length ≤ S
 
 theorem sim_write (b : Buffer) (g : Ghost) (S : Nat) (p : List Byte) (h : BufferSim b g S)
-    (hbound : ((3 * (S + p.length) : Nat) : Int) ≤ maxInt) :
+    (hbound : ((3 * (S + p.length) : Nat) : Int) ≤ maxAlloc) :
     ∃ g', BufferSpec g (.write p) (b.write p).2 g' ∧ BufferSim (b.write p).1 g' (S + p.length) := by
   obtain ⟨hrel, hinv, hS⟩ := h
-  obtain ⟨b', k, hw, hk, hoff', hbuf', hinv', _⟩ := write_char b p hinv (by rw [maxInt_eq] at *; omega)
+  obtain ⟨b', k, hw, hk, hoff', hbuf', hinv', _⟩ := write_char b p hinv (by simp only [maxAlloc_eq] at *; omega)
   have hkle : k ≤ b.off := by rcases hk with hk | hk <;> omega
   obtain ⟨happ, hrel'⟩ := rel_compact_append hrel k p hkle hoff' hbuf'
   refine ⟨{ W := g.W ++ p, r := g.r + k, c := g.c }, ?_, ?_⟩
@@ -262,10 +267,10 @@ theorem sim_write (b : Buffer) (g : Ghost) (S : Nat) (p : List Byte) (h : Buffer
     simp only [hbuf', List.length_append, List.length_drop]; omega
 
 theorem sim_grow (b : Buffer) (g : Ghost) (S : Nat) (n : Int) (hn : 0 ≤ n) (h : BufferSim b g S)
-    (hbound : ((3 * (S + n.toNat) : Nat) : Int) ≤ maxInt) :
+    (hbound : ((3 * (S + n.toNat) : Nat) : Int) ≤ maxAlloc) :
     ∃ g', BufferSpec g (.grow n) (b.growOp n).2 g' ∧ BufferSim (b.growOp n).1 g' (S + n.toNat) := by
   obtain ⟨hrel, hinv, hS⟩ := h
-  obtain ⟨b', k, hw, hk, hoff', hbuf', hinv', _⟩ := growOp_char b n hn hinv (by rw [maxInt_eq] at *; omega)
+  obtain ⟨b', k, hw, hk, hoff', hbuf', hinv', _⟩ := growOp_char b n hn hinv (by simp only [maxAlloc_eq] at *; omega)
   have hkle : k ≤ b.off := by rcases hk with hk | hk <;> omega
   obtain ⟨happ, hrel'⟩ := rel_compact_append hrel k [] hkle hoff' (by simpa using hbuf')
   simp only [List.append_nil] at happ hrel'
@@ -369,14 +374,14 @@ theorem sim_next (b : Buffer) (g : Ghost) (S : Nat) (n : Int) (hn : 0 ≤ n) (h 
 /-- `Seek`: the wrapped 64-bit additions agree with the exact target whenever the range test can pass, so the
     guarded assignment refines the abstract seek -/
 theorem sim_seek (b : Buffer) (g : Ghost) (S : Nat) (o w : Int) (ho : -(2 ^ 63 : Int) ≤ o ∧ o < 2 ^ 63)
-    (h : BufferSim b g S) (hbound : ((3 * S : Nat) : Int) ≤ maxInt) :
+    (h : BufferSim b g S) (hbound : ((3 * S : Nat) : Int) ≤ maxAlloc) :
     ∃ g', BufferSpec g (.seek o w) (b.seek o w).2 g' ∧ BufferSim (b.seek o w).1 g' S := by
   obtain ⟨hrel, hinv, hS⟩ := h
   have hlen := rel_len hrel
   obtain ⟨⟨h1, h2⟩, hb, hoff⟩ := hrel
   obtain ⟨hoffle, hcap, hnil⟩ := hinv
   have hsmall : (b.buf.length : Int) < 2 ^ 63 := by
-    rw [maxInt_eq] at hbound; simp only [Int.reducePow]; omega
+    rw [maxAlloc_eq] at hbound; simp only [Int.reducePow]; omega
   have hret : g.retained = b.buf.length := by simp [Ghost.retained, hlen]
   have hcr : g.c - g.r = b.off := hoff.symm
   -- the model's `next` is the exact target whenever the range test can pass
@@ -432,7 +437,7 @@ theorem sim_seek (b : Buffer) (g : Ghost) (S : Nat) (o w : Int) (ho : -(2 ^ 63 :
 
 /-- one step of the model refines one step of the specification -/
 theorem buffer_step_sim (b : Buffer) (g : Ghost) (S : Nat) (op : Buffer.Op) (h : BufferSim b g S)
-    (hv : BufferOpValid op) (hbound : ((3 * (S + BufferOpSize op) : Nat) : Int) ≤ maxInt) :
+    (hv : BufferOpValid op) (hbound : ((3 * (S + BufferOpSize op) : Nat) : Int) ≤ maxAlloc) :
     ∃ g', BufferSpec g op (b.step op).2 g' ∧ BufferSim (b.step op).1 g' (S + BufferOpSize op) := by
   cases op with
   | write p => exact sim_write b g S p h hbound
@@ -452,7 +457,7 @@ theorem bufferSizes_cons (op : Buffer.Op) (ops : List Buffer.Op) :
 
 /-- lifting to op sequences by induction -/
 theorem buffer_run_sim (ops : List Buffer.Op) : ∀ (b : Buffer) (g : Ghost) (S : Nat), BufferSim b g S →
-    (∀ op ∈ ops, BufferOpValid op) → ((3 * (S + bufferSizes ops) : Nat) : Int) ≤ maxInt →
+    (∀ op ∈ ops, BufferOpValid op) → ((3 * (S + bufferSizes ops) : Nat) : Int) ≤ maxAlloc →
     ∃ g', BufferSpecRun g ops (b.run ops).2 g' ∧ BufferSim (b.run ops).1 g' (S + bufferSizes ops) := by
   induction ops with
   | nil => intro b g S h _ _; exact ⟨g, rfl, by simpa [bufferSizes, Buffer.run] using h⟩
